@@ -563,23 +563,30 @@ def judge(module, cfg, records, shards=None, timeout=1800, group_key=None):
             groups.append(cur)
     else:
         groups = [[r] for r in recs]
-    nsh = max(1, min(shards, len(groups)))
+    # shards are balanced by BYTES and capped (a shard is deserialised whole by one JVM: a thorough run with long piece
+    # layers once filled a 2 GB heap); at most `shards` JVMs run at a time
+    texts = [[json.dumps(r, separators=(",", ":")) for r in g] for g in groups]
+    gbytes = [sum(len(t) + 1 for t in ts) for ts in texts]
+    cap = 24 * 2 ** 20
+    nsh = max(1, min(len(groups), max(shards, -(-sum(gbytes) // cap))))
     buckets = [[] for _ in range(nsh)]
+    btexts = [[] for _ in range(nsh)]
     sizes = [0] * nsh
-    for g in groups:
+    for g, ts, nb in zip(groups, texts, gbytes):
         k = sizes.index(min(sizes))
         buckets[k].extend(g)
-        sizes[k] += len(g)
+        btexts[k].extend(ts)
+        sizes[k] += nb
     d = tempfile.mkdtemp(prefix="judge-", dir=tmproot())
     jobs = []
-    for k, b in enumerate(buckets):
+    for k, ts in enumerate(btexts):
         p = os.path.join(d, "shard%d.ndjson" % k)
         with open(p, "w") as f:
-            for r in b:
-                f.write(json.dumps(r, separators=(",", ":")) + "\n")
+            for t in ts:
+                f.write(t + "\n")
         jobs.append((module, cfg, p, timeout))
     import concurrent.futures as cf
-    with cf.ThreadPoolExecutor(max_workers=nsh) as ex:
+    with cf.ThreadPoolExecutor(max_workers=min(nsh, shards)) as ex:
         results = list(ex.map(_judge_shard, jobs))
     fails, gen, dist = [], 0, 0
     for k, r in enumerate(results):
